@@ -452,6 +452,10 @@ func (a *Analysis) ruleT3() {
 		}
 		a.MapOf[lc.Name] = M
 		maps++
+		// an entry of a descriptor table (list, *map, Once per language)?
+		if a.t3Desc(lc, M, usedGuard) {
+			continue
+		}
 		// built through a lazy-construction helper called with &guard, &M, list?
 		if insts := a.lazyInstances()[M]; len(insts) > 0 {
 			nw := 0
